@@ -40,6 +40,19 @@ impl TaskData {
         }
     }
 //@end
+//@extract src/task/data.rs :: impl TaskData :: fn get | R22 R28=&String->&str
+    pub fn get(&self, property: &str) -> (r: Option<&str>)
+        ensures
+            //@ob C18 C20 TaskData::get.reads-the-stored-value-if-any
+            match r { Some(v) => self.taskmap@.dom().contains(property@) && v@ == self.taskmap@[property@], None => !self.taskmap@.dom().contains(property@) },
+{
+        self.taskmap.get(property).map(|v: &String| -> (c1_r: &str)
+            ensures c1_r@ == v@
+        {
+            v.as_str()
+        })
+    }
+//@end
 //@extract src/task/data.rs :: impl TaskData :: fn get_uuid
     pub fn get_uuid(&self) -> (r: Uuid)
         ensures r == self.uuid,
